@@ -119,3 +119,38 @@ ENSURES(RET == 1 IMPLIES (REC_SLICE(*random, 32, record) && (*session_id == NULL
 	&& (*exts == NULL ? *exts_len == 0 : REC_SLICE(*exts, *exts_len, record))))
 ;
 #endif
+
+#ifdef CONTRACT_TLS_HELLO_EXTS
+/* server-side processing of ClientHello extensions (src/tls_ext.c): every recognised extension appends one response
+   extension to the caller's buffer of maxlen bytes.  The three processors are replaced by contracts (assumed): a response of a
+   fixed size K is appended when a buffer is given, and only counted when it is not (the two-pass convention). */
+#ifndef CONTRACT_TLS13_CERT_LIST
+int tls_ext_from_bytes(int *type, const uint8_t **data, size_t *datalen, const uint8_t **in, size_t *inlen)
+REQUIRES(WR_OK(type, sizeof(int)) && WR_OK(data, sizeof(*data)) && WR_OK(datalen, sizeof(size_t)) && WIN_REQ(in, inlen))
+ASSIGNS(*type, *data, *datalen, *in, *inlen)
+ENSURES(RET == 1 || RET == -1)
+ENSURES(RET == 1 IMPLIES (OLD(*inlen) >= 4 && *datalen <= OLD(*inlen) - 4 && WIN_ADV(in, inlen, 4 + *datalen)
+	&& (*datalen == 0 ? *data == NULL : (PTR_IN(OLD(*in), *data, OLD(*in) + OLD(*inlen)) && *data == OLD(*in) + 4))))
+;
+#endif
+#define EXT_PROC_CONTRACT(fn, K) \
+int fn(const uint8_t *ext_data, size_t ext_datalen, uint8_t **out, size_t *outlen) \
+REQUIRES((ext_datalen == 0 || RD_OK(ext_data, ext_datalen)) && WR_OK(outlen, sizeof(size_t))) \
+REQUIRES(out == NULL || (WR_OK(out, sizeof(*out)) && (*out == NULL || WR_OK(*out, (K))))) \
+ASSIGNS(*outlen; out != NULL && *out != NULL: OBJ_WHOLE(*out), *out) \
+ENSURES(RET == 1 || RET == -1) \
+ENSURES(RET == 1 IMPLIES *outlen == OLD(*outlen) + (K)) \
+ENSURES((RET == 1 && out != NULL && OLD(*out) != NULL) IMPLIES (PTR_IN(OLD(*out), *out, OLD(*out) + (K)) && *out == OLD(*out) + (K))) \
+ENSURES((RET != 1 && out != NULL) IMPLIES *out == OLD(*out))
+EXT_PROC_CONTRACT(tls_process_client_ec_point_formats, 6);
+EXT_PROC_CONTRACT(tls_process_client_signature_algorithms, 8);
+EXT_PROC_CONTRACT(tls_process_client_supported_groups, 8);
+
+int tls_process_client_hello_exts(const uint8_t *exts, size_t extslen, uint8_t *out, size_t *outlen, size_t maxlen)
+REQUIRES(extslen <= 65535 && (extslen == 0 || RD_OK(exts, extslen)) && WR_OK(outlen, sizeof(size_t)) && *outlen == 0)
+REQUIRES(maxlen <= 4096 && (maxlen == 0 || WR_OK(out, maxlen)) && SEPARATE(out, exts) && SEPARATE(outlen, out) && SEPARATE(outlen, exts))
+ASSIGNS(*outlen; maxlen != 0: OBJ_WHOLE(out))
+ENSURES(RET == 1 || RET == -1)
+ENSURES(RET == 1 IMPLIES *outlen <= maxlen)
+;
+#endif
